@@ -411,7 +411,7 @@ IVS_QUICK = [(-3, -1), (-2, 3), (0, 2), (-2, 0), (2, 2), (0, 0), (-1, -1), (1, 2
              (Fraction(-3, 2), Fraction(1, 2)), (1, 8), (3, 1), (Fraction(1, 4), 4), (Fraction(-1, 2), Fraction(-1, 4)),
              # exact bounds closer together than the doubles around them
              (10 ** 17, 10 ** 17 + 1), (-(10 ** 17) - 1, -(10 ** 17)), (Fraction(1, 3), Fraction(1, 3) + Fraction(1, 10 ** 18))]
-IVS_FLOAT = [(0.5, 1.5), (-0.1, 0.3), (0.1, 0.7), (-2.5, -0.25), (0.0, 1.0)]
+IVS_FLOAT = [(0.5, 1.5), (-0.1, 0.3), (0.1, 0.7), (-2.5, -0.25), (0.0, 1.0), (-1.5e-200, 2.5e-200), (-2.5e-300, 1.5e-300)]
 BIN_IN = ["+", "-", "*", "/", "%", "min", "max", "contains", "in", "<", "<=", ">", ">=", "==", "!="]
 BIN_NI = ["+", "-", "*", "/", "^", "min", "max", "contains", "in", "log", "<", "<=", ">", ">=", "==", "!="]
 BIN_II = ["<", "<=", ">", ">=", "==", "!="]
